@@ -27,7 +27,9 @@ Suppressions:
 """
 
 import ast
+import os
 from collections.abc import Callable
+from pathlib import Path
 from typing import Any, Protocol, TypeVar
 
 from src.core.base import BaseLintContext
@@ -272,6 +274,29 @@ def resolve_file_path(context: BaseLintContext) -> str:
         File path string, or "unknown" if not available
     """
     return str(context.file_path) if context.file_path else "unknown"
+
+
+def relative_to_root(file_path: str | Path, project_root: str | Path | None) -> str:
+    """Return file_path relative to project_root (POSIX form) when it lies under it.
+
+    Path heuristics (test directories, per-linter ignore patterns) describe places inside
+    the project; where the project itself is checked out must not influence them. The
+    path is returned unchanged when no root is known or the file lies outside it.
+    """
+    if project_root:
+        try:
+            relative = Path(os.path.abspath(file_path)).relative_to(os.path.abspath(project_root))
+            return relative.as_posix()
+        except ValueError:
+            pass
+    return str(file_path)
+
+
+def project_relative_path(context: BaseLintContext) -> str:
+    """Return the linted file's path relative to the project root (see relative_to_root)."""
+    if not context.file_path:
+        return "unknown"
+    return relative_to_root(context.file_path, get_metadata(context).get("_project_root"))
 
 
 def is_ignored_path(file_path: str, ignore_patterns: list[str]) -> bool:
